@@ -123,6 +123,17 @@ func (r *Decoder) DecodeRow(rec interface{}) bool {
 				continue
 			}
 
+			// A line string is written as a polyline of one part and comes
+			// back as a MultiLineString: hand its single part to a field of
+			// type geom.LineString (the type the record was written from).
+			if ml, ok := g.(geom.MultiLineString); ok && len(ml) == 1 &&
+				fType.Type == reflect.TypeOf(geom.LineString(nil)) {
+				g = ml[0]
+			}
+			if !reflect.TypeOf(g).AssignableTo(fType.Type) {
+				r.err = fmt.Errorf("shp: a %T cannot be stored in field %s of type %v", g, fType.Name, fType.Type)
+				return false
+			}
 			fValue.Set(reflect.ValueOf(g))
 
 			// Then, check the tag name
